@@ -553,3 +553,44 @@ def reader_base64_dispatch(u: U):
     u.check("C19.b64.dispatch.aligned_iff_base64_any_case", (len(aligned) == len(reads)) if is_b64 else not aligned,
             "chunks of a part are aligned to base64 quartets exactly when its Content-Transfer-Encoding is base64, "
             f"compared case-insensitively (header value {cte!r})", witness={"content_transfer_encoding": cte})
+
+
+@unit("C19", "names.semicolons_round_trip", functions=[f"{MP}:parse_content_disposition"], kind="bounded")
+def names_semicolons_round_trip(u: U):
+    """BOUND: every field name over the alphabet {a, ';', ' '} of length 1..5 (363 names), quote_fields on and off, as
+    `name` and as `filename` of a form-data part.  The header the writer side produces (helpers.content_disposition_header,
+    run natively) is read back by the real parse_content_disposition: the name comes back verbatim, the filename verbatim
+    or percent-encoded.  (A ';' inside a quoted value is where the parser splits the header first: it has to put ANY
+    number of such pieces back together, not one.)  Names containing '"' followed by ';' are outside the bound: the
+    parser does not tell an escaped closing quote from a real one, and an existing test pins that reading."""
+    import itertools
+    import warnings
+    from urllib.parse import unquote
+
+    from aiohttp.helpers import content_disposition_header
+
+    f = u.load(MP, "parse_content_disposition")
+    from pyvc.runtime import LoopSpec
+
+    u.default_loop_spec = LoopSpec(unroll=True, bound=64)
+    bad = []
+    n = 0
+    for k in range(1, 6):
+        for tup in itertools.product("a; ", repeat=k):
+            name = "".join(tup)
+            for qf in (True, False):
+                header = content_disposition_header("form-data", quote_fields=qf, params={"name": name, "filename": name})
+                with warnings.catch_warnings():
+                    warnings.simplefilter("ignore")
+                    out = u.call(f, header)
+                n += 1
+                if not out.ok:
+                    bad.append((name, qf, repr(out.exc)))
+                    continue
+                disptype, params = out.value
+                got_name, got_fn = params.get("name"), params.get("filename")
+                if disptype != "form-data" or got_name != name or got_fn is None or (got_fn != name and unquote(got_fn) != name):
+                    bad.append((name, qf, header, params))
+    u.check("C19.names.semicolons_round_trip", not bad,
+            f"{n} headers written and read back; first that do not come back: {bad[:3]}",
+            witness={"first_failing": [b[:2] for b in bad[:5]], "failing": len(bad)})
